@@ -174,4 +174,12 @@ CHECKS = {
         "level_text": 'Decides the operator <-> primitive tables, NULL guards, error discipline of arithmetic and the projection shape on every path. Whether each function computes its documented value is not decided.',
         "level_note": "Trusted: std comparison/arithmetic primitives; Value's derived order (C16); MIR of the nightly front end.",
     },
+    "C05": {
+        "modules": ["rules_c05"],
+        "explanation": 'Rules on the MIR of join.rs and the converter: error discipline (results of File::open, get_table, index_for and the per-line execute reach the caller through Try::branch/FromResidual and are not swallowed by ok()/unwrap_or); the join index insert and lookup are dominated by a NOT NULL test of the key; in execute_join every partner row yields exactly one execute call and one merge on every path back to the loop header (path counting), the loop is left early only by error returns, partners are traversed as a plain slice of a Vec<Row> bucket; the OUTER row is vec![NULL; number of joined columns] on the no-partner arm under is_outer && allow_outer; transform_join maps both ON orientations consistently (field provenance of the two JoinClause constructions).',
+        "trusted": ["rustc nightly MIR + trait resolution", "dependencies behave as documented"],
+        "technique": 'static error-discipline (swallowed-result) analysis, guard dominance, path counting and field-provenance rules on MIR',
+        "level_text": 'Decides the structural clauses of the join mechanism (errors reported, NULL keys excluded, every pair executed and merged once in file order, outer row shape, side mapping). The resulting set of pairs as values is not computed.',
+        "level_note": 'Trusted: std HashMap/Vec semantics; MIR of the nightly front end.',
+    },
 }
